@@ -63,9 +63,11 @@ H_A == { Hdr(<<DLet("a", I1)>>, <<DReg("q", I3), DSlice("r", "q", I1, I3, None),
          \* the let sits in the innermost link only (u = q[a:4]); r, w, s, t are literal views of it
          Hdr(<<DLet("a", I1)>>, <<DReg("q", NumI(4)), DSlice("u", "q", Let("a"), NumI(4), None), DSlice("r", "u", I0, I2, None),
                                    DIndex("s", "r", I1), DWhole("w", "r"), DSlice("t", "u", I1, I0, NumI(-1))>>, <<>>, ExactGates) }
-M_A == << MD("m1", <<"x", "y">>, {"seq"}, { G("X", <<Par("x")>>), G("X", <<QI("r", 0)>>), G("X", <<Qb("w", Par("y"))>>), G("X", <<QAl("s")>>) }, {}, 2) >>
+\* (m2: its parameter has the NAME of the constant that bounds the aliases; it is called with other values than the constant's)
+M_A == << MD("m1", <<"x", "y">>, {"seq"}, { G("X", <<Par("x")>>), G("X", <<QI("r", 0)>>), G("X", <<Qb("w", Par("y"))>>), G("X", <<QAl("s")>>) }, {}, 2),
+          MD("m2", <<"a">>, {"seq"}, { G("X", <<QAl("s")>>), G("X", <<QI("t", 0)>>), G("R", <<QI("r", 0), Par("a")>>) }, {}, 2) >>
 T_A == { G("X", <<QI("r", 1)>>), G("X", <<QAl("s")>>), G("CX", <<QI("w", 0), QI("t", 0)>>), G("m1", <<QI("r", 0), I1>>),
-         G("m1", <<QAl("s"), Let("a")>>), G("X", <<Qb("r", Let("a"))>>) }
+         G("m1", <<QAl("s"), Let("a")>>), G("X", <<Qb("r", Let("a"))>>), G("m2", <<I2>>), G("m2", <<I0>>) }
 O_A == { OSeq, OPar, OLoop(I2, FALSE), OSub(I1) }
 
 \* ---------------------------------------------------------------- C10 / C11: all four passes have work to do
@@ -88,11 +90,12 @@ O_X == { OSeq, OPar, OLoop(Let("n"), FALSE), OSub(I1), OSub(Let("n")) }
 
 \* ---------------------------------------------------------------- C07: colliding names (lexical scoping)
 \* let a, register q, alias r  versus macro parameters a, q, r; the same statement text in two scopes
-H_B == { Hdr(<<DLet("a", I1)>>, <<DReg("q", I3), DSlice("r", "q", I1, I3, None)>>, <<>>, <<>>) }
+\* (s: a single-qubit alias whose index is the constant; used inside the macro whose parameter is named like its source q)
+H_B == { Hdr(<<DLet("a", I1)>>, <<DReg("q", I3), DSlice("r", "q", I1, I3, None), DIndex("s", "q", Let("a"))>>, <<>>, <<>>) }
 M_B == << MD("f", <<"a">>, {"seq"}, { G("g", <<Par("a")>>), G("g", <<Qb("q", Par("a"))>>), G("g", <<QI("r", 0)>>),
                                        G("g", <<QI("q", 0)>>) }, {}, 2),
           MD("h", <<"q">>, {"seq"}, { G("g", <<Par("q")>>), G("g", <<QbP("q", I0)>>), G("g", <<QbP("q", Let("a"))>>),
-                                       G("g", <<Let("a")>>) }, {}, 2),
+                                       G("g", <<Let("a")>>), G("g", <<QAl("s")>>) }, {}, 2),
           MD("k", <<"r", "a">>, {"seq"}, { G("g", <<QbP("r", I0)>>), G("g", <<QbP("r", Par("a"))>>), G("g", <<Par("a")>>) }, {}, 1) >>
 M_BQ == << [M_B[1] EXCEPT !.max = 1], [M_B[2] EXCEPT !.max = 1], M_B[3] >>
 T_B == { G("g", <<Let("a")>>), G("g", <<Qb("q", Let("a"))>>), G("g", <<QI("r", 0)>>), G("g", <<QI("q", 0)>>),
@@ -103,6 +106,11 @@ O_B == { OLoop(Let("a"), FALSE) }
 H_E == { Hdr(<<DLet("z", I0), DLet("t", I2)>>, <<DReg("q", I2)>>, <<>>, ExactGates) }
 M_E0 == <<>>
 M_E1 == << MD("m", <<"x">>, {"seq"}, { G("X", <<Par("x")>>) }, { OSub(I1) }, 2) >>
+\* two macros: the first has a parameter NAMED like the constant t, the second (defined after it) uses the constant t as
+\* the count of a loop around a subcircuit - executed under overrides of t (C08: overridden lets behave like literals)
+M_E2 == << MD("p", <<"t">>, {"seq"}, { G("X", <<QI("q", 0)>>) }, {}, 1),
+           MD("m", <<"x">>, {"seq"}, { G("X", <<Par("x")>>) }, { OSub(I1), OLoop(Let("t"), FALSE) }, 3) >>
+O_E0 == { OSeq, OLoop(Let("t"), FALSE), OSub(I1) }
 T_E == { G("prepare_all", <<>>), G("measure_all", <<>>), G("X", <<QI("q", 0)>>) }
 T_E1 == T_E \cup { G("m", <<QI("q", 1)>>) }
 O_E == { OSeq, OPar, OLoop(I0, FALSE), OLoop(I2, FALSE), OLoop(Let("t"), FALSE), OLoop(I1, FALSE), OSub(I1) }
@@ -148,7 +156,9 @@ T_G4 == { G("X", <<QI("q", 3)>>), G("H", <<QI("q", 3)>>), G("H", <<QI("q", 0)>>)
 \* ---------------------------------------------------------------- execution: parallel blocks (C13)
 H_P == { Hdr(<<>>, <<DReg("q", I3), DSlice("r", "q", I1, I3, None)>>, <<>>, ExactGates),
          \* a register sized by a let constant, an alias bounded by it
-         Hdr(<<DLet("n", I3)>>, <<DReg("q", Let("n")), DSlice("r", "q", I1, Let("n"), None)>>, <<>>, ExactGates) }
+         Hdr(<<DLet("n", I3)>>, <<DReg("q", Let("n")), DSlice("r", "q", I1, Let("n"), None)>>, <<>>, ExactGates),
+         \* an alias of a STRIDED alias with a non-zero start: r = w[1:3] = (q[2], q[4])
+         Hdr(<<>>, <<DReg("q", NumI(5)), DSlice("w", "q", I0, NumI(5), I2), DSlice("r", "w", I1, I3, None)>>, <<>>, ExactGates) }
 \* n calls m; n's second formal has the NAME of m's formal and is bound to another qubit than the one n passes on
 M_P == << MD("m", <<"x">>, {"seq"}, { G("X", <<Par("x")>>), G("CX", <<Par("x"), QI("q", 0)>>) }, {}, 1),
           MD("nn", <<"y", "x">>, {"seq"}, { G("m", <<Par("y")>>), G("m", <<Par("x")>>) }, {}, 1),
@@ -197,6 +207,8 @@ O_TD == { OSeq, OPar }          \* deep alternating nestings (TLC simulation)
 \* loops below parallel blocks at every depth (all must be rejected), few gates
 T_TL == { G("g", <<QI("q", 0)>>), G("g", <<QI("q", 1)>>) }
 O_TL == { OSeq, OPar, OLoop(I2, FALSE) }
+\* the loop may be opened anywhere (also as a direct branch of a parallel block): builder route only
+O_TLA == { OSeq, OPar, OLoopAny(I2, FALSE) }
 
 \* ---------------------------------------------------------------- C17: programs expressible in all three front ends
 \* (second header: two constants with EQUAL values - left anonymous, Q-syntax must still keep them apart)
